@@ -27,7 +27,15 @@ MANIFEST = {
             "exact Gaussian rationals; those are tied to the code by (a) plans translated from the Python AST of forward / "
             "_A_star_op / _A_star_A_op / B_op / cg / _PRP / _DY / _BAN, proved equal to the model plans and proved to evaluate to "
             "the model definitions for every operations record, (b) exact differential correspondence against the real blocks "
-            "with dense dyadic unitary / un-normalised / arbitrary operator matrices injected as forward/backward operators.",
+            "with dense dyadic unitary / un-normalised / arbitrary operator matrices injected as forward/backward operators. "
+            "Phase 2: the same physics re-implemented in 36 sites of the unrolled models and engines (EndToEndVarNetBlock, "
+            "RecurrentVarNetBlock, VSharpNet/3D, JointICNet, IterDualNet, LPDNet, XPDNet, MRIVarSplitNet, KIKINet, CIRIM, "
+            "MRIModelEngine, SSL/JSSL/VSharp engines) is extracted from the AST into plans, each proved to evaluate to one of the "
+            "model forms (softDC, aOp, aStar, dcGradTwice, dcGradAfter, loglik, hardDC, ...), and those forms are proved to be the "
+            "gradient A^H(A x - M y) / the k-space gradient M(k - y) / the adjoint pair / the hard data consistency; CIRIM's "
+            "k-space output and VSharpNetJSSLEngine's inference path are recorded as differing. ConjGrad on a batch: the loop is "
+            "left at the first pass where the batch-mean statistic passes the test (cg_batch_mean_stop) and every sample is still "
+            "never worse than its own start; un-normalised operator pair = adjoint pair (d F, d F^H) on data d y.",
     "note": "Partial: floating-point rounding and 'to solver tolerance within num_iters' are numerical, checked by the oracle on "
             "the real code with the real fft2/ifft2 (autograd gradient, dense torch.linalg.solve, objective monotone over "
             "iteration counts) and not proved. Trusted: Lean kernel + Mathlib (axioms propext, Classical.choice, Quot.sound), "
@@ -50,14 +58,19 @@ TRUSTED = [
 ]
 ASSUMPTIONS = [
     "exact arithmetic in the theorems; float32/float64 rounding only checked by the oracle (1e-4 / 2e-3 relative)",
-    "batch size 1 in the model of the stopping test (mean over the batch of sqrt|rr|); batches are checked by the oracle",
+    "the batch stopping statistic is decided through a rational enclosure of the square roots (width 1e-20); inputs inside the "
+    "enclosure are reported as borderline and skipped (none met)",
+    "sampling masks are boolean where the engines negate them with `~` (property C04)",
 ]
 RULE = ("correspondence: dense operator matrices (dyadic unitary incl. Hadamard/phase-permutation products, un-normalised "
         "integer pair, arbitrary non-adjoint pair) on n = H*W in {1,2,3,4,6,8,16} pixels, 1-3 coils, Gaussian-integer data, "
         "masks empty/full/random, scaling None or dyadic; exact string equality for loglik/_A_star_op/_A_star_A_op/B_op, "
-        "1e-7 relative for cg/forward after 0-3 passes with all four update types and tol in {0, positive}. non-trivial = "
+        "1e-7 relative for cg/forward after 0-3 passes with all four update types and tol in {0, positive}; batches of 2-3 samples "
+        "through cgBatch; exact equality for the site forms reachable on the real modules (soft DC of the two VarNet blocks "
+        "with a zero regulariser, _forward/_backward_operator of five classes, engine hard DC). non-trivial = "
         "n >= 2 and a mask that is neither trivial for the op nor data all zero (loglik: any case with n >= 2); distinct = "
-        "distinct protocol line. oracle: one case = one random problem with the real fft2/ifft2")
+        "distinct protocol line. oracle: one case = one random problem with the real fft2/ifft2; site oracle: one case = one "
+        "real module (tiny networks) run with recording operators, every data-consistency evaluation compared with autograd")
 
 DT = torch.float64
 
